@@ -12,7 +12,7 @@ import (
 func init() { Registry["C07"] = runC07 }
 
 const (
-	c07Header   = "From Kava Require Import Base.Prelude Base.Dec Model.Swap."
+	c07Header   = "From Kava Require Import Base.Prelude Base.Dec Model.Swap Model.SwapGov."
 	c07DefaultL = 40
 )
 
@@ -33,7 +33,7 @@ func runC07(o Opts) (*Result, error) {
 		n = c07DefaultL
 	}
 	res := &Result{Property: "C07", Seed: o.Seed,
-		Rule: "three kinds of histories, all generated from splitmix64(seed, index): (1) " + fmt.Sprint(n) + " swap keeper calls (Deposit/Withdraw/SwapExactForTokens/SwapForExactTokens by 3 accounts on 2 allowed pools sharing a denom) on a fresh app.TestApp, every third history delivered at the message level instead (ValidateBasic, then the real msg server at generated block times, deadlines one second before / exactly on / one second after the block time, far ahead, or not positive); (2) batches of single operations on x/swap/types.BasePool with reserves, shares and amounts up to 2^255; (3) the exhaustive small domain (all reserves, shares and amounts up to n, five fees) compared through digests. A keeper history is non-trivial when it contains a successful operation that exercises a counted case split (new pool, A- or B-reduced deposit, partial/exiting/pool-deleting withdrawal, either direction of either swap kind); a BasePool batch when at least one of its operations hits a counted split; distinct by hash of the operation list"}
+		Rule: "three kinds of histories, all generated from splitmix64(seed, index): (1) " + fmt.Sprint(n) + " swap keeper calls (Deposit/Withdraw/SwapExactForTokens/SwapForExactTokens by 3 accounts on 2 allowed pools sharing a denom) on a fresh app.TestApp, the swap fee changed in the middle of most histories by a parameter-change proposal through the governance router (valid and out-of-range fees) on the one keeper instance of the history, every third history delivered at the message level instead (ValidateBasic, then the real msg server at generated block times, deadlines one second before / exactly on / one second after the block time, far ahead, or not positive); (2) batches of single operations on x/swap/types.BasePool with reserves, shares and amounts up to 2^255; (3) the exhaustive small domain (all reserves, shares and amounts up to n, five fees) compared through digests. A keeper history is non-trivial when it contains a successful operation that exercises a counted case split (new pool, A- or B-reduced deposit, partial/exiting/pool-deleting withdrawal, either direction of either swap kind); a BasePool batch when at least one of its operations hits a counted split; distinct by hash of the operation list"}
 	cnt := NewCounters()
 
 	if o.Replay != "" {
@@ -81,9 +81,7 @@ func runC07(o Opts) (*Result, error) {
 				fail.Replay = MustJSON(h2)
 			}
 			res.Evaluations = len(h.Ops)
-			if h.Mode == "tx" {
-				mismatchFn = "mismatches_m"
-			}
+			mismatchFn = "mismatches_v"
 		}
 		name, err := WriteShard(o.OutDir, 0, c07Header, []string{coq}, mismatchFn)
 		if err != nil {
@@ -215,10 +213,10 @@ func runC07(o Opts) (*Result, error) {
 			kKeeper = append(kKeeper, it)
 		}
 	}
+	mismatchFn = "mismatches_v" // keeper and message-level histories are [vhistory] terms (Model/SwapGov.v)
 	if err := addItems(kKeeper, 40); err != nil {
 		return nil, err
 	}
-	mismatchFn = "mismatches_m" // message-level histories are [mhistory] terms
 	if err := addItems(kTx, 40); err != nil {
 		return nil, err
 	}
